@@ -80,7 +80,9 @@ var hbehsNoOut = func() []int {
 }()
 
 // publisher behaviours
-var pbehs = []string{"accept", "error", "panic-str", "panic-nil"}
+// "error-once": only the first Publish call made for a message is rejected; further calls for the same message (there are none
+// when the outputs are published in one call) would be accepted
+var pbehs = []string{"accept", "error", "panic-str", "panic-nil", "error-once"}
 
 // handler kinds
 const (
@@ -135,7 +137,7 @@ func init() {
 		Level: "fault_enumeration",
 		Cases: func(tier string) int { return matrixCases() + vlib.TierN(tier, 2000, 500000) },
 		Rule: fmt.Sprintf("matrix part: %d cells = {%d handler behaviours: returns nil/empty/1/3 messages, error, error+1/3 messages, panic(string|error|nil), "+
-			"context.Canceled (bare/wrapped), Ack-then-{ok,ok+msg,err,err+msg,panic}, Nack-then-{ok,ok+1/3 msgs,err,err+msg,panic}, Ack-then-Nack} x {publisher: accept,error,panic(string),panic(nil)} x "+
+			"context.Canceled (bare/wrapped), Ack-then-{ok,ok+msg,err,err+msg,panic}, Nack-then-{ok,ok+1/3 msgs,err,err+msg,panic}, Ack-then-Nack} x {publisher: accept,error,panic(string),panic(nil),error on the first call for a message only} x "+
 			"{AddHandler+publisher, AddNoPublisherHandler, AddHandler+nil publisher} x {%d middleware prefixes: none, pass-through (router/handler level), output-adding "+
 			"(router/handler level), error-swallowing, failing, panic-recovering}; every cell is run once with 1 message and once with 2..16 messages held in the handler "+
 			"at the same time by a barrier. Random part: one Router/handler per case, 1..16 messages with independently drawn handler and publisher behaviours, random kind, "+
@@ -362,6 +364,7 @@ type pubRec struct {
 }
 
 type state struct {
+	pubCallsOf map[int]int // message index -> Publish calls made for it so far (behaviour "error-once")
 	id  string
 	cfg config
 
@@ -597,12 +600,23 @@ func (st *state) script(no int, topic string, msgs []*message.Message) error {
 		beh = pbehs[st.cfg.Specs[pr.owner].P]
 		pr.stateOut = vlib.Settled(st.recs[pr.owner].in)
 	}
+	if beh == "error-once" {
+		if st.pubCallsOf == nil {
+			st.pubCallsOf = map[int]int{}
+		}
+		st.pubCallsOf[pr.owner]++
+		if st.pubCallsOf[pr.owner] > 1 {
+			beh = "accept"
+		}
+	}
 	if pr != nil {
 		pr.outcome = beh
 		pr.endStamp = vlib.Now()
 	}
 	st.mu.Unlock()
 	switch beh {
+	case "error-once":
+		return errScriptedPublish
 	case "error":
 		// the error value must not matter: plain, context.Canceled and a wrapper of it (the Router treats
 		// context.Canceled specially when it logs handler errors)
